@@ -450,7 +450,16 @@ fn build_matcher_tree(
     // multiple-character flags don't start with a double dash
     let mut i = arg_index;
     let mut invert_next_matcher = false;
+    // Set after an operator or '!': the next token must start an operand.
+    let mut expecting_operand = false;
     while i < args.len() {
+        if expecting_operand && matches!(args[i], "-a" | "-and" | "-o" | "-or" | ",") {
+            return Err(From::from(format!(
+                "invalid expression; you have used a binary operator '{}' with nothing before it.",
+                args[i]
+            )));
+        }
+        expecting_operand = matches!(args[i], "-a" | "-and" | "-o" | "-or" | "," | "-not" | "!");
         let possible_submatcher = match args[i] {
             "-print" => Some(Printer::new(PrintDelimiter::Newline, None).into_box()),
             "-print0" => Some(Printer::new(PrintDelimiter::Null, None).into_box()),
